@@ -680,6 +680,11 @@ class ParentGraphs(Suite):
                 for d in depths:
                     out.append({"fmt": fmt, "end": end, "depth": 1 if end == "self" else d, "back": rng.randrange(0, d),
                                 "abs_same": rng.chance(0.5), "salt": rng.randrange(1 << 20)})
+        # Parallels bundles whose image file is named by a path that exists nowhere (a linked clone whose base was not
+        # collected): relative, absolute, Windows-style, deep
+        for name in ("gone.hds", "/no/such/place/base.hds", "C:\\Users\\x\\VMs\\base.pvm\\disk.hdd\\base.hds",
+                     "/" + "/".join(f"d{i}" for i in range(rng.randint(20, 60))) + "/base.hds", "../../elsewhere/base.hds"):
+            out.append({"fmt": "hdd", "end": "missing", "depth": 1, "image": name, "back": 0, "abs_same": True, "salt": 0})
         return out
 
     def build(self, case, tmp):
@@ -726,9 +731,30 @@ class ParentGraphs(Suite):
             fh.write(bytes(8 * 512))
         return os.path.join(vm, names[0])
 
+    def impl_hdd(self, case):
+        from pathlib import Path
+        from dissect.hypervisor.disk.hdd import HDD
+        tmp = tempfile.mkdtemp(prefix="verif_c11h_")
+        try:
+            d = os.path.join(tmp, "vm.pvm", "disk.hdd")
+            os.makedirs(d)
+            img = f"<Image><GUID>{guid(1)}</GUID><Type>Compressed</Type><File>{case['image']}</File></Image>"
+            shots = f"<Shot><GUID>{guid(1)}</GUID><ParentGUID>{guid(0)}</ParentGUID></Shot>"
+            with open(os.path.join(d, "DiskDescriptor.xml"), "w") as fh:
+                fh.write(DESC.format(images=img, top=f"<TopGUID>{guid(1)}</TopGUID>", shots=shots))
+            try:
+                n = len(HDD(Path(d)).open().read(512))
+                return {"outcome": "ok", "n": n, "objects": 0, "limit": 0}
+            except Exception as e:  # noqa: BLE001
+                return {"outcome": "exc", "exc": type(e).__name__, "objects": 0, "limit": 0}
+        finally:
+            shutil.rmtree(tmp, ignore_errors=True)
+
     def impl(self, case):
         import sys
         from pathlib import Path
+        if case["fmt"] == "hdd":
+            return self.impl_hdd(case)
         if case["fmt"] == "vhdx":
             import dissect.hypervisor.disk.vhdx as mod
             cls_name = "VHDX"
